@@ -9,6 +9,15 @@ open Holo HoloGen
 
 def t3 (p : Float × Float × Float) : String := sFs [p.1, p.2.1, p.2.2]
 
+def img2 (ny : Nat) (a : Array Float) : Nat → Nat → Float := fun i j => a.getD (i * ny + j) 0.0
+
+def optImg (nx ny : Nat) (f : Nat → Nat → Option Float) : String :=
+  let cells := (List.range nx).flatMap fun i => (List.range ny).map fun j => f i j
+  if cells.any (·.isNone) then "err:BadImage" else sFs (cells.map (·.getD 0.0))
+
+def gridOut (nx ny : Nat) (f : Nat → Nat → Float) : String :=
+  sFs ((List.range nx).flatMap fun i => (List.range ny).map fun j => f i j)
+
 def step (line : String) : String :=
   match (line.trimAscii.toString.splitOn " ").filter (· ≠ "") with
   -- C19 ---------------------------------------------------------------
@@ -45,6 +54,32 @@ def step (line : String) : String :=
           z.re :: z.im :: go rest
         | _ => []
       sFs (go mn)
+  -- C18 ---------------------------------------------------------------
+  | "normalize" :: nx :: ny :: vals =>
+      let a := (vals.map pF).toArray
+      gridOut (pN nx) (pN ny) (normalize (pN nx) (pN ny) (img2 (pN ny) a))
+  | "zerofilter" :: nx :: ny :: vals =>
+      let a := (vals.map pF).toArray
+      optImg (pN nx) (pN ny) (zeroFilterAt (pN nx) (pN ny) (img2 (pN ny) a))
+  | "bgcorrect" :: nx :: ny :: vals =>
+      let a := (vals.map pF).toArray
+      let n := pN nx * pN ny
+      let raw := img2 (pN ny) (a.extract 0 n)
+      let bg := img2 (pN ny) (a.extract n (2 * n))
+      let df := img2 (pN ny) (a.extract (2 * n) (3 * n))
+      optImg (pN nx) (pN ny) (bgCorrectAt (pN nx) (pN ny) raw bg df)
+  | "detrend" :: nx :: ny :: vals =>
+      let a := (vals.map pF).toArray
+      gridOut (pN nx) (pN ny) (detrend2 (pN nx) (pN ny) (img2 (pN ny) a))
+  | ["subimage", n, c, s] => " ".intercalate ((subimageIdx (pN n) (pQ c) (pQ s)).map toString)
+  | "welford" :: npix :: k :: vals =>
+      let a := (vals.map pF).toArray
+      let np := pN npix
+      let res := (List.range np).map fun p =>
+        let xs := (List.range (pN k)).map fun t => a.getD (t * np + p) 0.0
+        let s := xs.foldl Welford.push Welford.init
+        (s.mean, Float.sqrt s.var)
+      sFs (res.map (·.1) ++ res.map (·.2))
   | ["genfailures"] => toString translationFailures
   | _ => "bad-op"
 
